@@ -472,6 +472,46 @@ Theorem C06_announcements_terminate_partial : forall w L0 lv up par x0 m0 nets,
 Proof. exact announcement_terminates_on_tree. Qed.
 Print Assumptions C06_announcements_terminate_partial.
 
+(* route-aware operation (settings.route_aware): the source shown carries a route — the link source of the
+   delivering frame (up_route) — and a destination that carries a route takes the early branch of indication
+   (indication_routed): it is sent straight to that router on the local adapter, and the address asked for
+   continues as DADR whenever it is remote or global, with a full hop count *)
+Theorem C06_route_aware_keeps_dadr : forall n la d m route data,
+  nth_adapter n (local_idx n) = Some la ->
+  indication_routed n (ARS d m) route data
+  = (n, [Tx (local_idx n) (LStation route) (mkNpdu (Some (DStation d m)) None 255 None data)]).
+Proof. intros n la d m route data H. unfold indication_routed. rewrite H. reflexivity. Qed.
+Print Assumptions C06_route_aware_keeps_dadr.
+
+(* C06_reply_routable with route_aware on: B is shown s:smac@rt with rt = link source of the frame lf that delivered
+   the request, and replies to exactly that; same hypotheses as C06_reply_routable except that B needs no cache
+   entry and parks nothing *)
+Theorem C06_reply_routable_route_aware : forall w d lv up par srcn ws s smac a_s tgt wt dm a_t data rdata mR,
+  internet_ok (lans w) (nodes w) -> tree_to (lans w) (nodes w) d lv up par -> queue w = [] ->
+  nth_error (nodes w) srcn = Some ws -> w_ports ws = [(s, smac)] -> adapters (w_node ws) = [a_s] ->
+  (a_net a_s = None \/ a_net a_s = Some s) -> has_app (w_node ws) = true ->
+  In (tgt, 0%nat) (lan_members (lans w) d) -> nth_error (nodes w) tgt = Some wt ->
+  w_ports wt = [(d, dm)] -> adapters (w_node wt) = [a_t] -> (a_net a_t = None \/ a_net a_t = Some d) ->
+  has_app (w_node wt) = true ->
+  (0 < lv s <= 255)%nat ->
+  pending_get (pending (w_node ws)) d = None ->
+  port_mac (nodes w) (par s) = Some mR -> cache_get (rcache (w_node ws)) (a_net a_s) d = Some mR ->
+  apdu_ok data = true -> apdu_ok rdata = true ->
+  (forall who wn, nth_error (nodes w) who = Some wn -> forall x, cache_get (rcache (w_node wn)) x s = None) ->
+  let w0 := submit w srcn (ARS d dm) data in
+  exists k1 lf rest,
+    queue (run k1 w0) = [] /\
+    trace (run k1 w0) = (OUp tgt (ARS s smac) (ALS dm) data :: OFrame lf :: rest) ++ trace w /\
+    oups (OUp tgt (ARS s smac) (ALS dm) data :: OFrame lf :: rest) = [OUp tgt (ARS s smac) (ALS dm) data] /\
+    up_route (w_node wt) 0 (f_src lf) (f_npdu lf) = Some (f_src lf) /\
+    let w2 := submit_routed (run k1 w0) tgt (ARS s smac) (f_src lf) rdata in
+    exists k2 osn2,
+      queue (run k2 w2) = [] /\ (forall k', (k2 <= k')%nat -> run k' w2 = run k2 w2) /\
+      trace (run k2 w2) = osn2 ++ trace (run k1 w0) /\
+      oups osn2 = [OUp srcn (ARS d dm) (ALS smac) rdata].
+Proof. exact tree_reply_routable_route_aware. Qed.
+Print Assumptions C06_reply_routable_route_aware.
+
 (* C06_reply_routable is FALSE of the code when the originator is an application on a router: router with ports
    (net 1, net 2), local adapter = net 2, broadcasts globally; the station on net 1 is shown the router's net-1
    address in local form; its reply to that address arrives on the non-local adapter and is handed to nobody. *)
@@ -870,6 +910,15 @@ Proof.
   - repeat constructor.
   - intros who wn H. cbn [nodes] in H. do 7 (destruct who as [|who]; [inversion H; reflexivity|]). destruct who; discriminate.
 Qed.
+
+(* route-aware round trip on the cold tree: the request is delivered by router R1 ([11]); the reply to 1:[1]@[11] *)
+Example C06_tree4c_round_trip_route_aware :
+  let w1 := run 10 (submit tree4c 2 (ARS 4 [2]) [16; 99; 1]) in
+  let w2 := run 10 (submit_routed w1 6 (ARS 1 [1]) [11] [16; 99; 2]) in
+  queue w1 = [] /\ queue w2 = [] /\
+  filter (fun o => match o with OUp _ _ _ _ => true | _ => false end) (rev (trace w2))
+  = [OUp 6 (ARS 1 [1]) (ALS [2]) [16; 99; 1]; OUp 2 (ARS 4 [2]) (ALS [1]) [16; 99; 2]].
+Proof. vm_compute. repeat split. Qed.
 
 Example C06_tree_unicast_example :
   let w := run 100 (submit tree4 2 (ARS 4 [2]) [16; 99; 1]) in
